@@ -211,13 +211,19 @@ Inductive meth := MAdd | MMul | MGet | MSub | MDiv | MBoom
                 | MLen | MGetItem | MGated
                 (* double-underscore names refused by the gate: __secret (private), __hidden__ (exists, not
                    exposed), __del__ (reserved dunder, private) *)
-                | MDSecret | MDHidden | MDDel.
+                | MDSecret | MDHidden | MDDel
+                (* lasterr k: SUCCEEDS and returns an exception object ValueError(total, k) as its value *)
+                | MLastErr.
 Record acall := { c_meth : meth; c_arg : Z }.
 
 (* exception classes as the caller tells them apart, with their integer arguments *)
 Inductive why := WPrivate | WUnexposed | WMissing.
 Inductive aexn := EValue (total k : Z) | EZeroDiv | ERuntime (total : Z) | EAttr (w : why)
                 | ESubmit.   (* client-side failure of the submission itself (defective variant only) *)
+
+(* results: integers, or an exception object handed out as an ordinary value (returned, not raised) *)
+Inductive aval := VInt (z : Z) | VExc (e : aexn).
+Coercion VInt : Z >-> aval.
 
 Definition acc_modulus : Z := 1000003.
 
@@ -229,18 +235,20 @@ Definition acc_gate (s : Z) (c : acall) : option aexn :=
   | _ => None
   end.
 
-Definition acc_step (s : Z) (c : acall) : Z * outcome Z aexn :=
+Definition OkI (z : Z) : outcome aval aexn := Ok (VInt z).
+Definition acc_step (s : Z) (c : acall) : Z * outcome aval aexn :=
   let k := c_arg c in
   match c_meth c with
-  | MAdd => (s + k, Ok (s + k))
-  | MMul => ((s * k) mod acc_modulus, Ok ((s * k) mod acc_modulus))
-  | MGet => (s, Ok s)
-  | MSub => if s - k <? 0 then (s, Exc (EValue s k)) else (s - k, Ok (s - k))
-  | MDiv => if k =? 0 then (s, Exc EZeroDiv) else (s / k, Ok (s / k))
+  | MAdd => (s + k, OkI (s + k))
+  | MMul => ((s * k) mod acc_modulus, OkI ((s * k) mod acc_modulus))
+  | MGet => (s, OkI s)
+  | MSub => if s - k <? 0 then (s, Exc (EValue s k)) else (s - k, OkI (s - k))
+  | MDiv => if k =? 0 then (s, Exc EZeroDiv) else (s / k, OkI (s / k))
   | MBoom => (s + k, Exc (ERuntime (s + k)))
-  | MLen => (s, Ok (Z.abs s mod 7 + 1))
-  | MGetItem => (s, Ok (s + k))
-  | MGated => (s + k, Ok (s + k))
+  | MLen => (s, OkI (Z.abs s mod 7 + 1))
+  | MGetItem => (s, OkI (s + k))
+  | MGated => (s + k, OkI (s + k))
+  | MLastErr => (s, Ok (VExc (EValue s k)))
   | MHidden | MSecret | MDunder | MNoSuch | MDotted | MDSecret | MDHidden | MDDel =>
       (s, Exc (EAttr WMissing))   (* never reached: refused by the gate *)
   end.
